@@ -1,13 +1,57 @@
-from ..ctx import Undecided
+"""PRNG contract (assumed, DESIGN 4.3).  Keys are terms of the algebraic datatype
+    Key = root(seed) | child(parent, i)
+so keys with different derivation paths are distinct.  `split(k, n)[i] = child(k, i)`;
+`choice(k, a, p)` = a[draw(k, site)] with 0 <= draw < len(a) and p[draw] > 0 (a label of positive
+probability); the dependence on p is not modelled further (a fresh `site` per call).  Every use of a key
+(split or draw) is recorded as a ghost event so that contracts can require 'no key is used twice'."""
+
+from __future__ import annotations
+
+import z3
+
+from ..ctx import Undecided, cur
+from ..values import SymArray, T, asarray, lift, unwrap0, zdim
+
+Key = z3.Datatype("Key")
+Key.declare("root", ("seed", z3.IntSort()))
+Key.declare("child", ("parent", Key), ("index", z3.IntSort()))
+Key = Key.create()
+
+_DRAW = z3.Function("draw", Key, z3.IntSort(), z3.IntSort())
 
 
-def PRNGKey(seed):
-    raise Undecided("PRNGKey")
+def _event(kind, key):
+    ctx = cur()
+    ctx.events.append({"kind": kind, "key": key, "binders": list(ctx.binders)})
 
 
-def split(key, num):
-    raise Undecided("split")
+def PRNGKey(seed=0):
+    cur().trusted.add("jax.random: keys form a derivation tree (distinct paths, distinct keys); draws from distinct keys independent (assumed)")
+    return T(Key.root(lift(seed)))
 
 
-def choice(key, a, p):
-    raise Undecided("choice")
+def split(key, num=2):
+    k = lift(key)
+    _event("split", k)
+    n = zdim(num)
+    return SymArray((n,), lambda idx: Key.child(k, idx[0]), "key")
+
+
+def choice(key, a, p=None):
+    ctx = cur()
+    k = lift(key)
+    _event("draw", k)
+    a = asarray(a)
+    if a.ndim != 1:
+        raise Undecided("random.choice over an n-d array")
+    site = ctx.memo.get("draw-sites", 0)
+    ctx.memo["draw-sites"] = site + 1
+    j = _DRAW(k, z3.IntVal(site))
+    n = a.zshape[0]
+    ctx.assume(z3.And(j >= 0, j < n), tag="random.choice")
+    if p is not None:
+        p = asarray(p)
+        ctx.assume(p.get((j,)) > 0, tag="random.choice")
+    out = SymArray((), lambda idx: a.get((j,)), a._dtype)
+    out.draw_index = T(j)
+    return unwrap0(out)
